@@ -384,9 +384,11 @@ class EnvHandle(object):
             if st.get("twin_class"):
                 # two different observer classes with the same module and qualified name live in the process (a class
                 # redefined under the same name, a factory): the first one, instanced first, subscribes to less
-                narrow = type("RecFeature", (_RecFeatureBase,), dict(_mk_callbacks("feature", ["EventNewDate"]), __module__=__name__))
+                narrow = type("RecFeatureTwin", (_RecFeatureBase,), dict(_mk_callbacks("feature", ["EventNewDate"]), __module__=__name__))
                 narrow(sink, tag, 1, name="narrow")
-                fcls = type("RecFeature", (_RecFeatureBase,), dict(_mk_callbacks("feature", FEATURE_EVENT_CLASSES), __module__=__name__))
+                # (a name of their own: the module-level RecFeature is now filed under this module too - it has to be, to be
+                #  picklable - and must not be a third class of the same name, instanced by earlier runs of the process)
+                fcls = type("RecFeatureTwin", (_RecFeatureBase,), dict(_mk_callbacks("feature", FEATURE_EVENT_CLASSES), __module__=__name__))
             scls = RecStateInherited if st.get("inherited") else RecState
             feats = [fcls(sink, tag, st.get("k", 3), name="roll", reads_account=bool(st.get("reads_account")))] if st.get("feature", True) else None
             if st.get("sparse_feature"):
